@@ -57,6 +57,8 @@ GNext ==
      \/ IdleExtractPanics /\ hist' = Append(hist, Ev("pan", 0, <<>>)) /\ UNCHANGED <<nreads, wire0>>
      \/ IdleExtractErr /\ hist' = Append(hist, Ev("er", 0, <<>>)) /\ UNCHANGED <<nreads, wire0>>
      \/ PollPoisoned /\ hist' = Append(hist, Ev("pan", 0, <<>>)) /\ UNCHANGED <<nreads, wire0>>
+     \/ PollErrored /\ hist' = Append(hist, Ev("end", 0, <<>>)) /\ UNCHANGED <<nreads, wire0>>
+     \/ PollAfterFailed /\ hist' = Append(hist, Ev("end", 0, <<>>)) /\ UNCHANGED <<nreads, wire0>>
      \/ \E n \in 1..Min(ChunkMax, Len(wire)) :
           ChunkOK(n) /\ ReadData(n) /\ hist' = Append(hist, Ev("r", n, <<>>)) /\ nreads' = nreads + 1
           /\ UNCHANGED wire0
